@@ -58,6 +58,7 @@ class State:
         self.last_susp = None       # Snap taken right after the last suspension's havoc (or entry)
         self.cm_stack = ()
         self.wrote = frozenset()    # heap keys written on this path since entry
+        self.constructing = frozenset()
         self.clock = z3.IntVal(0)   # allocation clock (birth stamp of the youngest object created by me)
         self.epoch_bound = z3.IntVal(0)   # everything stored in the initial arrays of this epoch was born <= this
 
@@ -86,6 +87,7 @@ class State:
         s.cm_stack = self.cm_stack
         s.wrote = self.wrote
         s.clock = self.clock
+        s.constructing = self.constructing
         s.epoch_bound = self.epoch_bound
         return s
 
